@@ -42,3 +42,5 @@
 ; sdiv: Go's integer division as an opaque function for use inside quantified clauses; its
 ; definition (sdiv a b) = (godiv a b) is supplied at ground terms only (lemma sdiv_def)
 (declare-fun sdiv (Int Int) Int)
+; smod: Go's remainder as an opaque function (definition supplied at ground terms: lemma smod_def)
+(declare-fun smod (Int Int) Int)
